@@ -21,6 +21,15 @@ META = {
 }
 
 
+def _wide_deep(out):
+    # many channels (channel/batch folding), and four / five levels on sizes whose level sizes alternate between needing
+    # the one-sample border and not needing it
+    out.append(dict(biort='near_sym_a', qshift='qshift_a', J=2, H=4, W=4, B=1, C=33))
+    out.append(dict(biort='near_sym_a', qshift='qshift_a', J=3, H=4, W=4, B=2, C=17))
+    for (h, w, J) in [(8, 8, 4), (6, 8, 4), (24, 8, 4), (12, 16, 5)]:
+        out.append(dict(biort='near_sym_a', qshift='qshift_a', J=J, H=h, W=w, B=1, C=1))
+
+
 def configs(tier, seed):
     out = []
     if tier == 'quick':
@@ -36,6 +45,7 @@ def configs(tier, seed):
         # filters given as tuples of arrays (the documented alternative to names)
         out.append(dict(biort='near_sym_b', qshift='qshift_b', J=2, H=6, W=8, B=1, C=1, as_tuples=True))
         out.append(dict(biort='legall', qshift='qshift_06', J=3, H=5, W=7, B=1, C=1, as_tuples=True))
+        _wide_deep(out)
         for ctx in D.CTXS:
             out.append(dict(biort='near_sym_a', qshift='qshift_a', J=2, H=6, W=8, B=1, C=2, ctx=ctx))
             out.append(dict(biort='near_sym_b', qshift='qshift_b', J=2, H=5, W=6, B=2, C=1, ctx=ctx))
@@ -52,6 +62,7 @@ def configs(tier, seed):
             out.append(dict(biort=b, qshift=q, J=3, H=16, W=16, B=1, C=1))
             out.append(dict(biort=b, qshift=q, J=4, H=16, W=16, B=1, C=1))
         out.append(dict(biort='near_sym_b', qshift='qshift_d', J=2, H=7, W=6, B=2, C=3))
+        _wide_deep(out)
         for ctx in D.CTXS:
             for (b, q) in DT.QUICK_PAIRS[:3]:
                 out.append(dict(biort=b, qshift=q, J=3, H=10, W=12, B=1, C=2, ctx=ctx))
